@@ -77,6 +77,10 @@ type BaseStore struct {
 	muCache   sync.RWMutex
 	muIndex   sync.RWMutex
 	muJoining sync.Mutex
+	// muStatus makes a recalculation of the replication status (read the log
+	// length and the current values, then set) one step: writers, the main
+	// loop and loads all recalculate, each on its own goroutine
+	muStatus sync.Mutex
 	// muWrite makes appending an entry and persisting it as the local head one
 	// step with respect to other writers of this store
 	muWrite   sync.Mutex
@@ -1106,6 +1110,13 @@ func (b *BaseStore) AddOperation(ctx context.Context, op operation.Operation, on
 }
 
 func (b *BaseStore) recalculateReplicationProgress() {
+	b.muStatus.Lock()
+	defer b.muStatus.Unlock()
+
+	b.recalculateReplicationProgressLocked()
+}
+
+func (b *BaseStore) recalculateReplicationProgressLocked() {
 	max := b.ReplicationStatus().GetMax()
 	if progress := b.ReplicationStatus().GetProgress() + 1; progress < max {
 		max = progress
@@ -1119,6 +1130,13 @@ func (b *BaseStore) recalculateReplicationProgress() {
 }
 
 func (b *BaseStore) recalculateReplicationMax(max int) {
+	b.muStatus.Lock()
+	defer b.muStatus.Unlock()
+
+	b.recalculateReplicationMaxLocked(max)
+}
+
+func (b *BaseStore) recalculateReplicationMaxLocked(max int) {
 	if opLogLen := b.OpLog().Len(); opLogLen > max {
 		max = opLogLen
 	}
@@ -1132,8 +1150,11 @@ func (b *BaseStore) recalculateReplicationMax(max int) {
 }
 
 func (b *BaseStore) recalculateReplicationStatus(maxTotal int) {
-	b.recalculateReplicationMax(maxTotal)
-	b.recalculateReplicationProgress()
+	b.muStatus.Lock()
+	defer b.muStatus.Unlock()
+
+	b.recalculateReplicationMaxLocked(maxTotal)
+	b.recalculateReplicationProgressLocked()
 }
 
 func (b *BaseStore) updateIndex(ctx context.Context) error {
